@@ -3,13 +3,21 @@ import CelmaVerif.Lemmas.LogFilesRun
   C15 — rolling log files keep the most recent messages, complete and in order.
   Property theorems only; helper lemmas are in Lemmas/LogFiles*.lean, the model (of the repaired
   code) and the vocabulary used here (`run`, `messages`, `generations`, `retained`, `size`, `cost`,
-  `nextCost`, `numGen`, `Admissible`) in Model/LogFiles.lean.
+  `nextCost`, `numGen`, `Writable`, `Admissible`, `GenOk`) in Model/LogFiles.lean.
 
   Setting of every theorem: any policy kind (entry-counted or size-limited), any limit ≥ 1, any number of
   generations, a fresh directory, and *any* history `evs` of `write m` / `restart` events in which every
-  message is admissible (fits a generation on its own; no newline inside for the entry-counted policy).
+  message is `Writable`: any length — also longer than a whole generation — and, for the entry-counted
+  policy only, no newline inside.
   `run cfg evs` is the state after constructing the policy and performing the events;
   `generations fs (numGen cfg)` are the generation files oldest → newest.
+
+  Messages that do not fit a generation on their own are part of the domain.  The limit clause of the
+  property is read as `GenOk`: a generation respects the limit, or it consists of exactly one message (which
+  then is longer than the limit: there is nowhere else to put it).  The "only when needed" clause is
+  unchanged: a generation is started exactly when the message does not fit behind the current content
+  (`C15_write_step`); an over-long message never fits, so it always starts a generation and the next message
+  starts another one.
 -/
 namespace CelmaVerif.Props.C15
 open CelmaVerif CelmaVerif.LogFiles
@@ -17,8 +25,8 @@ open CelmaVerif CelmaVerif.LogFiles
 /-- No event of such a history throws, and the policy object stays alive: in particular the file opened
     after a roll always passes its open check. -/
 theorem C15_never_throws (cfg : Cfg) (hlim : 1 ≤ cfg.limit) (evs : List Event)
-    (hadm : ∀ m ∈ messages evs, Admissible cfg m) (e : Event)
-    (he : ∀ m, e = .write m → Admissible cfg m) :
+    (hadm : ∀ m ∈ messages evs, Writable cfg m) (e : Event)
+    (he : ∀ m, e = .write m → Writable cfg m) :
     (start cfg emptyFs).2 = .ok () ∧ ((run cfg evs).step e).2 = .ok () ∧ (run cfg evs).pol.isSome := by
   have hW := run_winv hlim evs hadm
   refine ⟨(start_empty_winv hlim).1, ?_, ?_⟩
@@ -31,7 +39,7 @@ theorem C15_never_throws (cfg : Cfg) (hlim : 1 ≤ cfg.limit) (evs : List Event)
 /-- The generations read from oldest to newest are a suffix of the messages written, in the order
     written: the most recent messages, none lost, duplicated, reordered or truncated in between. -/
 theorem C15_suffix (cfg : Cfg) (hlim : 1 ≤ cfg.limit) (evs : List Event)
-    (hadm : ∀ m ∈ messages evs, Admissible cfg m) :
+    (hadm : ∀ m ∈ messages evs, Writable cfg m) :
     (generations (run cfg evs).fs (numGen cfg)).flatten <:+ messages evs := by
   obtain ⟨_, c, k, _, hI⟩ := run_winv hlim evs hadm
   rw [generations_flatten]
@@ -40,7 +48,7 @@ theorem C15_suffix (cfg : Cfg) (hlim : 1 ≤ cfg.limit) (evs : List Event)
 /-- Nothing at all is lost as long as fewer generation files exist than the configuration allows: messages
     only ever disappear with the oldest generation when the maximum number of files is reached. -/
 theorem C15_no_loss_until_full (cfg : Cfg) (hlim : 1 ≤ cfg.limit) (evs : List Event)
-    (hadm : ∀ m ∈ messages evs, Admissible cfg m)
+    (hadm : ∀ m ∈ messages evs, Writable cfg m)
     (hfew : (generations (run cfg evs).fs (numGen cfg)).length < numGen cfg) :
     (generations (run cfg evs).fs (numGen cfg)).flatten = messages evs := by
   obtain ⟨_, c, k, _, hI⟩ := run_winv hlim evs hadm
@@ -49,21 +57,70 @@ theorem C15_no_loss_until_full (cfg : Cfg) (hlim : 1 ≤ cfg.limit) (evs : List 
   have := hI.k_le
   exact hI.all (by omega)
 
-/-- No generation exceeds the configured limit (entries resp. bytes including the newlines). -/
+/-- No generation exceeds the configured limit (entries resp. bytes including the newlines), except a
+    generation that consists of exactly one message: `GenOk cfg g := size cfg g ≤ cfg.limit ∨ g.length = 1`. -/
 theorem C15_limit (cfg : Cfg) (hlim : 1 ≤ cfg.limit) (evs : List Event)
-    (hadm : ∀ m ∈ messages evs, Admissible cfg m) :
-    ∀ g ∈ generations (run cfg evs).fs (numGen cfg), size cfg g ≤ cfg.limit := by
+    (hadm : ∀ m ∈ messages evs, Writable cfg m) :
+    ∀ g ∈ generations (run cfg evs).fs (numGen cfg), GenOk cfg g := by
   obtain ⟨_, c, k, _, hI⟩ := run_winv hlim evs hadm
   intro g hg
   obtain ⟨i, _, hi⟩ := mem_generations.mp hg
   exact hI.lim i g hi
 
+/-- The exception is used only where it cannot be avoided: a generation that exceeds the limit is one single
+    message that does not fit a generation on its own; put differently, a message that is longer than the limit
+    is alone in its generation, and every generation with two or more messages respects the limit. -/
+theorem C15_oversize_alone (cfg : Cfg) (hlim : 1 ≤ cfg.limit) (evs : List Event)
+    (hadm : ∀ m ∈ messages evs, Writable cfg m) :
+    ∀ g ∈ generations (run cfg evs).fs (numGen cfg),
+      (cfg.limit < size cfg g → ∃ m, g = [m] ∧ cfg.limit < cost cfg m) ∧
+      (∀ m ∈ g, cfg.limit < cost cfg m → g = [m]) ∧
+      (2 ≤ g.length → size cfg g ≤ cfg.limit) := by
+  intro g hg
+  have hok := C15_limit cfg hlim evs hadm g hg
+  refine ⟨genOk_exceeds hok, ?_, ?_⟩
+  · intro m hm hlong
+    have := cost_le_size_of_mem cfg hm
+    obtain ⟨m', hg', _⟩ := genOk_exceeds hok (by omega)
+    subst hg'
+    simp at hm
+    rw [hm]
+  · intro h2
+    rcases hok with h | h
+    · exact h
+    · omega
+
+/-- A generation all of whose own messages fit a generation respects the limit — whatever else the history
+    contained. -/
+theorem C15_limit_fitting (cfg : Cfg) (hlim : 1 ≤ cfg.limit) (evs : List Event)
+    (hadm : ∀ m ∈ messages evs, Writable cfg m) :
+    ∀ g ∈ generations (run cfg evs).fs (numGen cfg), (∀ m ∈ g, cost cfg m ≤ cfg.limit) → size cfg g ≤ cfg.limit := by
+  intro g hg hfit
+  exact genOk_fitting (C15_limit cfg hlim evs hadm g hg) hfit
+
+/-- Corollary (the statement for histories without over-long messages): when every message of the history
+    fits a generation on its own, no generation exceeds the limit. -/
+theorem C15_limit_admissible (cfg : Cfg) (hlim : 1 ≤ cfg.limit) (evs : List Event)
+    (hadm : ∀ m ∈ messages evs, Admissible cfg m) :
+    ∀ g ∈ generations (run cfg evs).fs (numGen cfg), size cfg g ≤ cfg.limit := by
+  have hw : ∀ m ∈ messages evs, Writable cfg m := fun m hm => (hadm m hm).2
+  intro g hg
+  apply C15_limit_fitting cfg hlim evs hw g hg
+  intro m hm
+  obtain ⟨i, hi, hgi⟩ := mem_generations.mp hg
+  have hmem : m ∈ retained (run cfg evs).fs (numGen cfg) := mem_retained hi hgi hm
+  have hsuf := C15_suffix cfg hlim evs hw
+  rw [generations_flatten] at hsuf
+  exact (hadm m (hsuf.subset hmem)).1
+
 /-- A new generation is started only when the next message would exceed the limit: for a generation `g`
     (number n+1) and the next newer one `g'` (number n), `g` could not have taken the first message of `g'`;
     when `g'` is still empty (the process was restarted on a generation that was exactly full), `g` cannot
-    take any message at all.  The generation numbers in use have no holes, so these are all neighbours. -/
+    take any message at all.  The generation numbers in use have no holes, so these are all neighbours.
+    (With an over-long message: it could not have been put behind anything, not even into an empty generation
+    — the code starts a new one also then — and nothing fits behind it.) -/
 theorem C15_roll_only_when_needed (cfg : Cfg) (hlim : 1 ≤ cfg.limit) (evs : List Event)
-    (hadm : ∀ m ∈ messages evs, Admissible cfg m) :
+    (hadm : ∀ m ∈ messages evs, Writable cfg m) :
     (∀ n g g', (run cfg evs).fs.get (n + 1) = some g → (run cfg evs).fs.get n = some g' →
       cfg.limit < size cfg g + nextCost cfg g') ∧
     (∀ n, (run cfg evs).fs.get (n + 1) ≠ none → (run cfg evs).fs.get n ≠ none) := by
@@ -78,7 +135,7 @@ theorem C15_roll_only_when_needed (cfg : Cfg) (hlim : 1 ≤ cfg.limit) (evs : Li
 /-- At most `max_gen` generation files exist (one when `max_gen` < 1), and none has a number outside
     0 … max_gen-1. -/
 theorem C15_generation_count (cfg : Cfg) (hlim : 1 ≤ cfg.limit) (evs : List Event)
-    (hadm : ∀ m ∈ messages evs, Admissible cfg m) :
+    (hadm : ∀ m ∈ messages evs, Writable cfg m) :
     (generations (run cfg evs).fs (numGen cfg)).length ≤ numGen cfg ∧
     (∀ n, numGen cfg ≤ n → (run cfg evs).fs.get n = none) ∧
     (1 ≤ cfg.maxGen → numGen cfg = cfg.maxGen) := by
@@ -92,9 +149,10 @@ theorem C15_generation_count (cfg : Cfg) (hlim : 1 ≤ cfg.limit) (evs : List Ev
 /-- The step function (what makes the property functional): writing `m` after any such history appends it
     to generation 0 and touches nothing else when it fits, i.e. size + cost ≤ limit; otherwise — and only
     then — every generation moves up by one number (the one that would get number `numGen` is dropped) and
-    `m` starts the new generation 0. -/
+    `m` starts the new generation 0.  This holds for over-long messages too: they never fit, and after one
+    `size f` exceeds the limit, so the next message — whatever its length — starts a new generation. -/
 theorem C15_write_step (cfg : Cfg) (hlim : 1 ≤ cfg.limit) (evs : List Event)
-    (hadm : ∀ m ∈ messages evs, Admissible cfg m) (m : Msg) :
+    (hadm : ∀ m ∈ messages evs, Writable cfg m) (m : Msg) :
     ∃ f, (run cfg evs).fs.get 0 = some f ∧
       (size cfg f + cost cfg m ≤ cfg.limit →
         ∀ i, (run cfg (evs ++ [.write m])).fs.get i = if i = 0 then some (f ++ [m]) else (run cfg evs).fs.get i) ∧
@@ -110,9 +168,10 @@ theorem C15_write_step (cfg : Cfg) (hlim : 1 ≤ cfg.limit) (evs : List Event)
   exact ⟨f, h0, step_write_fs m hlim hW h0⟩
 
 /-- Restarting the process leaves every file as it is, except when generation 0 is exactly full (no
-    message whatsoever fits any more): then the generations are rolled and generation 0 starts empty. -/
+    message whatsoever fits any more) or holds one over-long message (the same: no message fits behind it):
+    then the generations are rolled and generation 0 starts empty. -/
 theorem C15_restart_step (cfg : Cfg) (hlim : 1 ≤ cfg.limit) (evs : List Event)
-    (hadm : ∀ m ∈ messages evs, Admissible cfg m) :
+    (hadm : ∀ m ∈ messages evs, Writable cfg m) :
     ∃ f, (run cfg evs).fs.get 0 = some f ∧
       (size cfg f < cfg.limit → ∀ i, (run cfg (evs ++ [.restart])).fs.get i = (run cfg evs).fs.get i) ∧
       (cfg.limit ≤ size cfg f →
@@ -151,5 +210,40 @@ example :
   intro m hm
   simp [messages] at hm
   rcases hm with h | h | h <;> subst h <;> exact ⟨by decide, by intro h; cases h⟩
+
+/-- over-long messages: 4 bytes per file, three files.  "ab\\n" (3), then "cdefgh\\n" (7 > 4) gets a generation
+    of its own, "i\\n" (2) does not go behind it but starts the next one, and after a restart "j\\n" joins "i\\n";
+    the generation with the over-long message is `GenOk` but exceeds the limit, the others respect it -/
+example :
+    let cfg : Cfg := ⟨.maxsize, 4, 3⟩
+    let evs : List Event := [.write [97, 98], .write [99, 100, 101, 102, 103, 104], .write [105], .restart, .write [106]]
+    (∀ m ∈ messages evs, Writable cfg m) ∧ ¬ (∀ m ∈ messages evs, Admissible cfg m) ∧
+    generations (run cfg evs).fs (numGen cfg) = [[[97, 98]], [[99, 100, 101, 102, 103, 104]], [[105], [106]]] ∧
+    (∀ g ∈ generations (run cfg evs).fs (numGen cfg), GenOk cfg g) ∧
+    (∃ g ∈ generations (run cfg evs).fs (numGen cfg), cfg.limit < size cfg g) := by
+  refine ⟨(fun m _ h => by cases h), ?_, by decide, ?_, ?_⟩
+  · intro h
+    have := (h [99, 100, 101, 102, 103, 104] (by decide)).1
+    revert this; decide
+  · have e : generations (run (⟨.maxsize, 4, 3⟩ : Cfg) [.write [97, 98], .write [99, 100, 101, 102, 103, 104],
+        .write [105], .restart, .write [106]]).fs (numGen ⟨.maxsize, 4, 3⟩) =
+        [[[97, 98]], [[99, 100, 101, 102, 103, 104]], [[105], [106]]] := by decide
+    intro g hg
+    rw [e] at hg
+    simp at hg
+    rcases hg with h | h | h <;> subst h <;> decide
+  · exact ⟨[[99, 100, 101, 102, 103, 104]], by decide, by decide⟩
+
+/-- an over-long message as the very first one, a restart on it, and another over-long one: the empty generation
+    that construction created is rolled away by the first message (it does not fit behind nothing either), the
+    restart finds generation 0 above the limit and starts an empty one, which the second over-long message
+    rolls away again; every message is retained while fewer than `max_gen` files exist -/
+example :
+    let cfg : Cfg := ⟨.maxsize, 3, 6⟩
+    let evs : List Event := [.write [97, 98, 99], .restart, .write [100, 101, 102, 103], .write []]
+    (∀ m ∈ messages evs, Writable cfg m) ∧
+    generations (run cfg evs).fs (numGen cfg) = [[], [[97, 98, 99]], [], [[100, 101, 102, 103]], [[]]] ∧
+    (generations (run cfg evs).fs (numGen cfg)).flatten = messages evs := by
+  refine ⟨(fun m _ h => by cases h), by decide, by decide⟩
 
 end CelmaVerif.Props.C15
